@@ -1,1 +1,55 @@
-CFG = {'harness_pkg': 'cres', 'coq_modules': ['Resource.Judge'], 'judge_module': 'Resource.Judge', 'allowed_axioms': [], 'theorems': ['C08_decision_table', 'C08_filtered_fold_is_filtered_list', 'C08_seed_is_filtered_list', 'C08_filtered_fold_any_described_chain', 'C08_polarity_v0_refuted', 'C08_absent_v0_refuted'], 'level_text': 'Theorems (Props/C08.v, closed, arbitrary message algebra, ANY predicate as a function, any read mask, every history from any sorted contents): the include decision table (start => ADD, stop => REMOVE, stays in => delivered, stays out => dropped, absent values never match); folding the filtered stream yields exactly List with the same predicate and mask after every history (invariant proof over the event sequence); the seed is the filtered list. The same law is proved for ANY chain of events describing transitions of the view of the subscriber (what lossy delivery produces, cf. C09). Tied to the code by ~400 cases per run: histories x predicates x suffix lengths with a real backpressured subscriber (model vs code on every event), the same with backpressure OFF and a slow consumer (merged events through include; oracle only), and the booking model server (ListBookings vs fold of PullBookings, period predicate incl. nil/unbounded/empty periods).', 'level_note': "Trusted: as C04. Predicates are drawn from a family (true, id-in-set, field>=k, negation, true-on-absent) for execution; the theorem covers all functions. Lossy delivery is C09; booking's period predicate is an instance (its PeriodsIntersect is C18).", 'trusted_base': ['modelled, not verified: pkg/masks on flat messages (Resource/Flat.v), proto.Equal/Clone/Merge on three scalar fields, sync.RWMutex (sequential use), minibus with one backpressured listener'], 'assumptions': ['one caller at a time', 'messages restricted to three scalar fields of TestAllTypes and top-level field masks in the correspondence (theorems are over an abstract algebra)']}
+CFG = {'allowed_axioms': [],
+ 'assumptions': ['one caller at a time',
+                 'messages restricted to three scalar fields of TestAllTypes and top-level field masks in the correspondence (theorems are over an '
+                 'abstract algebra)'],
+ 'coq_modules': ['Resource.Judge', 'Resource.C08Judge', 'Resource.IncludeProofs', 'Resource.IncludeTableProofs', 'Resource.IncludeDenoteProofs'],
+ 'generators': ['C08', 'C08x'],
+ 'harness_pkg': 'cres',
+ 'judge_module': 'Resource.Judge',
+ 'level_note': 'Trusted: as C04 and C09 (Go channel/select semantics: the lossy scenario relies on the merge stage keeping FIFO order by id so that '
+               'a plug write on its own id is what the Pull goroutine holds while the reader stalls). Predicates are drawn from a family (true, '
+               'id-in-set, field>=k, negation, true-on-absent) for execution; the theorems cover all functions. The message-level end-to-end '
+               'theorems take the token reading of a history (tokens = stored message pointers) as a hypothesis. Equivalence together with include '
+               'is not modelled.',
+ 'level_text': 'Theorems (Props/C08.v, closed, arbitrary message algebra, ANY predicate as a function, any read mask): the include decision table '
+               '(start => ADD, stop => REMOVE, stays in => delivered, stays out => dropped, absent values never match) for EVERY change kind incl. '
+               'the REPLACE the lossy merge stage produces; the step law (what include returns is a legal edit of the FILTERED collection leading to '
+               'the filtered new state); the end-to-end law in BOTH delivery modes: (a) backpressure: for every history folding the filtered stream '
+               'yields List with the same predicate and mask (invariant proof over spec_step runs, and over valid edit scripts), (b) lossy: composed '
+               "with C09's merge state machine (m_run reused), for EVERY schedule of Send/Recv actions (any number of ids, any reader pace) the "
+               'received filtered stream is an edit script of the filtered collection whose fold is the filter of the unfiltered lossy view at every '
+               'moment, and after draining it is the filtered collection after the whole history; both restated on messages (fold with apply_change '
+               '= c_list with the same options) through a token interpretation; a prompt lossy reader sees exactly the backpressured stream; the '
+               'seed is the filtered list. Tied to the code by: Gen/IncludeTable.v, regenerated every run from the real include over 6 kinds x '
+               'nil-ness x predicate answers x seed flags (768 rows; obligations: code = model on every row, every legal row obeys the fold law, '
+               'table complete, input untouched); ~1500 cases per run: backpressured histories x predicates (model vs code on every event), the '
+               'table rows as cases, public-API lossy+include scenarios with 1-2 stalled-then-draining subscribers and scripted delete/re-add of '
+               'matching<->non-matching versions (every field of every event vs m_run+include, fold vs List), two backpressured subscribers, write '
+               "during seed, and the booking server's booking_intersects predicate vs PeriodsIntersect's model and its arithmetic reference over the "
+               'full grid of period shapes (List and Pull).',
+ 'theorems': ['C08_decision_table',
+              'C08_filtered_fold_is_filtered_list',
+              'C08_seed_is_filtered_list',
+              'C08_filtered_fold_any_described_chain',
+              'C08_polarity_v0_refuted',
+              'C08_absent_v0_refuted',
+              'C08_include_every_kind',
+              'C08_replace_decisions',
+              'C08_include_step_law',
+              'C08_backpressure_fold_is_filtered',
+              'C08_lossy_fold_any_schedule',
+              'C08_lossy_drained_fold_is_filtered_list',
+              'C08_lossy_prompt_reader_is_backpressure',
+              'C08_table_matches_model',
+              'C08_table_obeys_law',
+              'C08_table_complete',
+              'C08_table_input_untouched',
+              'C08_include_is_pull_include',
+              'C08_backpressure_fold_is_list_M',
+              'C08_lossy_fold_is_list_M'],
+ 'trusted_base': ['modelled, not verified: pkg/masks on flat messages (Resource/Flat.v), proto.Equal/Clone/Merge on three scalar fields, '
+                  'sync.RWMutex (sequential use), minibus with one backpressured listener',
+                  'translator harness/cres/include.go: runs resource.VerifInclude (build tag verif) on kinds 0..5 x old/new nil-ness x predicate '
+                  'answers on old/new/nil x seed flags; values are opaque marker messages compared by pointer',
+                  'lossy scenario: the reader is stalled by not receiving; a plug write per phase occupies the Pull goroutine, a barrier write ends '
+                  'the drain (no sleeps; 20 s give-up timer only)']}
